@@ -6,7 +6,8 @@ generated definition and the proofs in Json/ResolveProofs.v, Json/SerializerProo
   SubclassJSONSerializer.from_json   -> from_json_chain   : jv -> outcome jerr (fj_action obj deser)
   to_json (module level)             -> to_json_dispatch  : pyobj -> outcome jerr (tj_action ser)
   SubclassJSONSerializer._from_json  -> base_from_json_body
-  SubclassJSONSerializer.to_json     -> base_to_json_fields
+  SubclassJSONSerializer.to_json     -> base_to_json  (guards + header dict)
+  SubclassJSONSerializer._resolve_enclosing_class is NOT translated: Section variable of the chain, hand model + source pin
   utils.get_full_class_name          -> get_full_class_name (cls_module cls_name cls_qualname : str)
   serialize_uuid / deserialize_uuid  -> serialize_uuid_fields / deserialize_uuid_key
   leaf_types, list_like_classes, JSON_TYPE_NAME, the JSONSerializationError hierarchy, the registry's
@@ -30,6 +31,7 @@ UTILS = "src/krrood/utils.py"
 BASE_ERR = "JSONSerializationError"
 SER = "SubclassJSONSerializer"
 REG = "JSONSerializableTypeRegistry"
+HELPER = "_resolve_enclosing_class"      # hand-modelled in Json/Resolve.v ([enclosing]) and source-pinned (pin set json)
 
 # stable numbering of the documented errors (shared with the harness and the Spec files)
 JERR_CODES = {"MissingTypeError": 1, "InvalidTypeFormatError": 2, "UnknownModuleError": 3, "ClassNotFoundError": 4,
@@ -172,8 +174,14 @@ def effectful(e: ast.AST, cx: Ctx) -> Tuple[str, str]:
         if _is_name(f, "getattr") and len(e.args) == 2:
             m, mty = pure(e.args[0], cx)
             n, nty = pure(e.args[1], cx)
-            if mty == "module" and nty == "str":
+            if mty == "owner" and nty == "str":
                 return (f"(getattr_ {m} {n})", "obj")
+            if mty == "module" and nty == "str":
+                return (f"(getattr_ (OMod {m}) {n})", "obj")
+        if isinstance(f, ast.Attribute) and f.attr == HELPER and _is_name(f.value, "cls") and len(e.args) == 1:
+            x, xty = pure(e.args[0], cx)
+            if xty == "str":
+                return (f"(resolve_enclosing_class {x})", "optowner")
         if _is_name(f, "issubclass") and len(e.args) == 2 and _is_name(e.args[1], SER):
             x, xty = pure(e.args[0], cx)
             if xty == "obj":
@@ -318,8 +326,10 @@ def block(stmts: List[ast.stmt], cx: Ctx, param: str, must_end: bool = True) -> 
         if not isinstance(h.type, ast.Name) or h.type.id not in PYEXN:
             raise Refuse(h, "handler exception class", fn)
         hb = [x for x in h.body if not is_doc(x)]
+        if len(hb) == 2:
+            return try_with_fallback(s, h, hb, rest, cx, param)
         if len(hb) != 1 or not isinstance(hb[0], ast.Raise):
-            raise Refuse(h, "handler body is not a single raise", fn)
+            raise Refuse(h, "handler body is neither a single raise nor `x = <fallback>; if x is None: raise`", fn)
         if hb[0].exc is None:
             raise Refuse(h, "bare re-raise", fn)
         handler = raise_(hb[0], cx)
@@ -331,6 +341,36 @@ def block(stmts: List[ast.stmt], cx: Ctx, param: str, must_end: bool = True) -> 
         k = block(rest, c2, param)
         return f"(catchM {m} {PYEXN[h.type.id]} {handler} (fun {pat} =>\n   {k}))"
     raise Refuse(s, f"statement kind {type(s).__name__}", fn)
+
+
+def try_with_fallback(s: ast.Try, h, hb, rest, cx: Ctx, param: str) -> str:
+    """try: x = <m>  except C: x = <fallback returning Optional>; if x is None: raise E(...)      ; rest(x)
+    Both assignments bind the same name; the module found by the try body and the owner found by the fallback are both
+    owners of the attribute looked up next."""
+    fn = cx.fn
+    a = s.body[0]
+    if len(a.targets) != 1 or not isinstance(a.targets[0], ast.Name):
+        raise Refuse(s, "try body target", fn)
+    name = a.targets[0].id
+    a2, g = hb
+    ok = (isinstance(a2, ast.Assign) and len(a2.targets) == 1 and _is_name(a2.targets[0], name)
+          and isinstance(g, ast.If) and not g.orelse and isinstance(g.test, ast.Compare) and len(g.test.ops) == 1
+          and isinstance(g.test.ops[0], ast.Is) and _is_name(g.test.left, name)
+          and isinstance(g.test.comparators[0], ast.Constant) and g.test.comparators[0].value is None
+          and len([x for x in g.body if not is_doc(x)]) == 1 and isinstance(g.body[0], ast.Raise) and g.body[0].exc is not None)
+    if not ok:
+        raise Refuse(h, f"handler is not `{name} = <fallback>; if {name} is None: raise ...`", fn)
+    m, ty = effectful(a.value, cx)
+    m2, ty2 = effectful(a2.value, cx)
+    if ty != "module" or ty2 != "optowner":
+        raise Refuse(s, f"try/fallback of types {ty} / {ty2} (expected module / optional owner)", fn)
+    if not rest:
+        raise Refuse(s, "try at the end of the function", fn)
+    c2 = cx.child()
+    c2.names[name] = ("v_" + name, "owner")
+    k = block(rest, c2, param)
+    handler = (f"(fun k__ => bindM {m2} (fun o__ => match o__ with Some x__ => k__ x__ | None => {raise_(g.body[0], cx)} end))")
+    return f"(catchM_or (mapM OMod {m}) {PYEXN[h.type.id]}\n   {handler}\n   (fun v_{name} =>\n   {k}))"
 
 
 def _params(f: ast.FunctionDef, skip_first: bool) -> List[str]:
@@ -424,7 +464,11 @@ def translate(repo: str) -> str:
     for need in ("to_json", "_from_json", "from_json"):
         if need not in meths:
             raise Refuse(ser, f"method {need} missing", fn)
-    extra = sorted(set(meths) - {"to_json", "_from_json", "from_json"})
+    if HELPER in meths:
+        hm = meths[HELPER]
+        if [ast.unparse(d) for d in hm.decorator_list] != ["staticmethod"] or [x.arg for x in hm.args.args] != ["qualified_name"]:
+            raise Refuse(hm, f"{HELPER} is not a staticmethod of one parameter `qualified_name`", fn)
+    extra = sorted(set(meths) - {"to_json", "_from_json", "from_json", HELPER})
     if extra:
         raise Refuse(ser, f"{SER} defines further methods {extra} (e.g. __init_subclass__ hooks are not modelled)", fn)
 
@@ -447,7 +491,8 @@ def translate(repo: str) -> str:
     out.append("Section FromJson.")
     out.append("  Variables (pymodule pyclass pydeser : Type).")
     out.append("  Variable import_module : str -> M pymodule.          (* importlib.import_module *)")
-    out.append("  Variable getattr_ : pymodule -> str -> M pyclass.        (* getattr(module, name) *)")
+    out.append("  Variable resolve_enclosing_class : str -> M (option (owner pymodule pyclass)).   (* cls._resolve_enclosing_class: hand model [enclosing] in Json/Resolve.v, source-pinned *)")
+    out.append("  Variable getattr_ : owner pymodule pyclass -> str -> M pyclass.        (* getattr(owner, name), owner a module or a class *)")
     out.append("  Variable is_type : pyclass -> bool.                    (* isinstance(x, type) *)")
     out.append("  Variable issubclass_ser : pyclass -> M bool.           (* issubclass(x, SubclassJSONSerializer) *)")
     out.append("  Variable get_deserializer : pyclass -> option pydeser.   (* JSONSerializableTypeRegistry().get_deserializer *)")
@@ -520,15 +565,26 @@ def translate(repo: str) -> str:
     out.append(f"Definition get_full_class_name (cls_module cls_name cls_qualname : str) : str :=\n  {strexpr(gb[0].value)}.")
     out.append("")
 
-    # base to_json: {JSON_TYPE_NAME: get_full_class_name(self.__class__)}
+    # base to_json: guards `if "<lit>" in self.__class__.__qualname__: raise E(...)`, then the header dict
     bt = meths["to_json"]
     btb = [s for s in bt.body if not is_doc(s)]
-    if bt.decorator_list or len(btb) != 1 or not isinstance(btb[0], ast.Return) or \
-            ast.unparse(btb[0].value) != "{JSON_TYPE_NAME: get_full_class_name(self.__class__)}":
-        raise Refuse(bt, "base to_json is not `return {JSON_TYPE_NAME: get_full_class_name(self.__class__)}`", fn)
-    out.append(f"(* {SER}.to_json, {SRC}:{bt.lineno}: the dict a subclass extends via super().to_json() *)")
-    out.append("Definition base_to_json_fields (cls_module cls_name cls_qualname : str) : list (str * jv) :=\n"
-               "  [(JSON_TYPE_NAME, JStr (get_full_class_name cls_module cls_name cls_qualname))].")
+    if bt.decorator_list or not btb or not isinstance(btb[-1], ast.Return) or \
+            ast.unparse(btb[-1].value) != "{JSON_TYPE_NAME: get_full_class_name(self.__class__)}":
+        raise Refuse(bt, "base to_json does not end in `return {JSON_TYPE_NAME: get_full_class_name(self.__class__)}`", fn)
+    cxb = Ctx(fn, consts, jerrs, "to_json")
+    term = "Return [(JSON_TYPE_NAME, JStr (get_full_class_name cls_module cls_name cls_qualname))]"
+    for gst in reversed(btb[:-1]):
+        t = gst.test if isinstance(gst, ast.If) else None
+        okg = (isinstance(gst, ast.If) and not gst.orelse and isinstance(t, ast.Compare) and len(t.ops) == 1
+               and isinstance(t.ops[0], ast.In) and isinstance(t.left, ast.Constant) and isinstance(t.left.value, str)
+               and ast.unparse(t.comparators[0]) in ("self.__class__.__qualname__", "self.__class__.__name__")
+               and len([x for x in gst.body if not is_doc(x)]) == 1 and isinstance(gst.body[0], ast.Raise))
+        if not okg:
+            raise Refuse(gst, "base to_json statement is not `if \"<literal>\" in self.__class__.__qualname__: raise ...`", fn)
+        subject = "cls_qualname" if ast.unparse(t.comparators[0]).endswith("__qualname__") else "cls_name"
+        term = f"if str_contains {subject} {strlit(t.left.value)} (* {t.left.value!r} *)\n  then {raise_(gst.body[0], cxb)}\n  else {term}"
+    out.append(f"(* {SER}.to_json, {SRC}:{bt.lineno}: the dict a subclass extends via super().to_json(), or the refusal *)")
+    out.append("Definition base_to_json (cls_module cls_name cls_qualname : str) : outcome jerr (list (str * jv)) :=\n  " + term + ".")
     out.append("")
 
     # UUID (de)serialiser
